@@ -3,7 +3,7 @@ CONSTANTS
   Budget = 7
   Enabled = {"Name", "Call", "Comp", "Starred", "Expression"}
   NameSet = {"a"}
-  ExtraParens = FALSE
+  ExtraParens = TRUE
   Emit = TRUE
 SPECIFICATION Spec
 INVARIANTS EmitOK
